@@ -25,7 +25,7 @@ impl<T: PartialOrd + Debug> HeapSelection<T> {
         &&& if self.n < self.k { self.heap@.len() == self.n } else { self.heap@.len() == self.k && heap_ok(self.heap@) }
         &&& self.sorted ==> self.n >= self.k
     }
-    // add()'s postcondition as a relation (used by the add-sequence lemma in heap_kmin.rs via the same text)
+    // add()'s postcondition as a relation (one text: it is add()'s `ensures` and the step relation of lemma_add_sequence_keeps_k_smallest below)
     spec fn add_post(pre: Self, element: T, post: Self) -> bool {
         &&& post.wf()
         &&& post.k == pre.k
